@@ -32,7 +32,7 @@ def fileSetOf : String → Option FileSet
 
 def modeArgOf : String → Option ModeArg
   | "absent" => some .absent | "NEW" => some .new | "NOTHING" => some .nothing | "OVERWRITE" => some .overwrite
-  | "bogus" => some .bogus | _ => none
+  | "bogus" => some .bogus | "empty" => some .empty | "lower" => some .lower | "confirm" => some .confirm | _ => none
 
 def progOfS : String → Option ProgKind
   | "find" => some .find | "replace" => some .replace | "failing" => some .failing | _ => none
